@@ -1,6 +1,7 @@
 import SkyllhModel.Proto
 import SkyllhModel.Model.Cache
 import SkyllhModel.Model.CacheTop
+import SkyllhModel.Model.CacheI3R7
 open Proto Cache CacheTop
 
 /-- The scalar the model is executed with: an IEEE double identified with its **bit pattern**.
@@ -239,8 +240,138 @@ def fCRes : CRes BF → String
   | .grad2 x => s!"H:{fBF x}"
   | .refused => "HREF"
 
+/-  round 7: the one-slot cache of SplinedI3EnergySigSetOverBkgPDFRatio (Model/CacheI3R7.lean)
+
+      i3 <bumpAlways> <atol> <leaves> <srcof> <gp> <d0> <s0> <ops>
+
+    leaves   d:s:k1,k2,…:ratio…:grads…;…   what a fresh object computes for (data set, source set, reduced key)
+    srcof    d:i1,i2,…;…                   source index of every value of data set d
+    gp       g1,g2,…                        `gamma:gpidx` of every source
+    ops      I<d> | S<s> | R<p1,p2,…> (get_ratio) | G<fid>|<p1,p2,…> (get_gradient)
+    answers  U | R:<hit>:<values> | G:<hit>:<values> | SHAPE | NOLEAF -/
+inductive I3Op where
+  | low (o : CacheI3.Op Nat Nat BF)
+  | grad (fid : Nat) (p : BF) (rest : List BF)
+
+def pI3Op (s : String) : Option I3Op :=
+  if s.startsWith "I" then some (.low (.initTrial (pN (s.drop 1).toString)))
+  else if s.startsWith "S" then some (.low (.changeSource (pN (s.drop 1).toString)))
+  else if s.startsWith "R" then
+    match pList pBF (s.drop 1).toString with
+    | p :: rest => some (.low (.get p rest))
+    | [] => none
+  else if s.startsWith "G" then
+    match ((s.drop 1).toString).splitOn "|" with
+    | [fid, ps] => match pList pBF ps with
+      | p :: rest => some (.grad (pN fid) p rest)
+      | [] => none
+    | _ => none
+  else none
+
+abbrev I3R := Option (List BF × List BF)
+
+def i3Trace (W : CacheI3.World Nat Nat BF I3R) (bump : Bool) (close0 : BF → BF → Bool)
+    (srcOf : Nat → List Nat) (gp : List Nat) : CacheI3.St Nat Nat BF I3R → List I3Op → List String
+  | _, [] => []
+  | st, .low o :: os =>
+    let (st1, r) := CacheI3.step W bump close0 st o
+    (match r with
+     | .unit => "U"
+     | .val (some v) hit => s!"R:{fB hit}:{fListD fBF v.1}"
+     | .val none _ => "NOLEAF"
+     | .shapeError => "SHAPE") :: i3Trace W bump close0 srcOf gp st1 os
+  | st, .grad fid p rest :: os =>
+    let (st1, r) := CacheI3.step W bump close0 st (.get p rest)
+    (match r with
+     | .unit => "U"
+     | .val (some v) hit => s!"G:{fB hit}:{fListD fBF (CacheI3.gradOut (srcOf st1.d) gp fid v.2)}"
+     | .val none _ => "NOLEAF"
+     | .shapeError => "SHAPE") :: i3Trace W bump close0 srcOf gp st1 os
+
+def i3Leaves (s : String) : List ((Nat × Nat × List BF) × (List BF × List BF)) :=
+  if s == "-" then [] else
+  (s.splitOn ";").filterMap fun e =>
+    match e.splitOn ":" with
+    | [d, sc, k, r, g] => some ((pN d, pN sc, pList pBF k), (pList pBF r, pList pBF g))
+    | _ => none
+
+def i3SrcOf (s : String) : List (Nat × List Nat) :=
+  if s == "-" then [] else
+  (s.splitOn ";").filterMap fun e =>
+    match e.splitOn ":" with
+    | [d, xs] => some (pN d, pList pN xs)
+    | _ => none
+
+/-  round 7: PDFRatioProduct with the caching ratio as a factor
+
+      i3p <bumpAlways> <atol> <leaves> <srcof> <gp> <stubr> <stubg> <dep> <d0> <s0> <ops>
+
+    stubr  d:s:values;…        ratio of the stateless factor       stubg  d:s:fid:values;…  its gradient (absent: scalar 0)
+    dep    fid1,fid2,… | -     global fit parameters the stateless factor depends on
+    ops    I<d> | S<s> | R<ps> | P<ps> (product get_ratio) | Q<fid>|<ps> (product get_gradient)
+    answers U | R:<hit>:<values> | P:<values> | Q:<values> | Q0 (scalar 0) | SHAPE -/
+def pPOp (s : String) : Option (CacheI3.POp Nat Nat BF) :=
+  if s.startsWith "P" then
+    match pList pBF (s.drop 1).toString with
+    | p :: rest => some (.pratio p rest)
+    | [] => none
+  else if s.startsWith "Q" then
+    match ((s.drop 1).toString).splitOn "|" with
+    | [fid, ps] => match pList pBF ps with
+      | p :: rest => some (.pgrad (pN fid) p rest)
+      | [] => none
+    | _ => none
+  else match pI3Op s with
+    | some (.low o) => some (.low o)
+    | _ => none
+
+def fPRes : CacheI3.PRes BF → String
+  | .low .unit => "U"
+  | .low (.val v hit) => s!"R:{fB hit}:{fListD fBF v.1}"
+  | .low .shapeError => "SHAPE"
+  | .vals v => s!"V:{fListD fBF v}"
+  | .zero => "Z"
+  | .shapeError => "SHAPE"
+
+def stubRTab (s : String) : List ((Nat × Nat) × List BF) :=
+  if s == "-" then [] else
+  (s.splitOn ";").filterMap fun e =>
+    match e.splitOn ":" with
+    | [d, sc, v] => some ((pN d, pN sc), pList pBF v)
+    | _ => none
+
+def stubGTab (s : String) : List ((Nat × Nat × Nat) × List BF) :=
+  if s == "-" then [] else
+  (s.splitOn ";").filterMap fun e =>
+    match e.splitOn ":" with
+    | [d, sc, fid, v] => some ((pN d, pN sc, pN fid), pList pBF v)
+    | _ => none
+
 def answer (line : String) : String :=
   match tokens line with
+  | ["i3p", bump, atol, leaves, srcof, gp, stubr, stubg, dep, d0, s0, ops] =>
+    let lt := i3Leaves leaves
+    let stab := i3SrcOf srcof
+    let rt := stubRTab stubr
+    let gt := stubGTab stubg
+    let deps := pList pN dep
+    let W : CacheI3.World Nat Nat BF (List BF × List BF) := ⟨fun d s k => (lt.lookup (d, s, k)).getD ([], [])⟩
+    let B : CacheI3.Stub Nat Nat BF :=
+      ⟨fun d s => (rt.lookup (d, s)).getD [], fun d s fid => gt.lookup (d, s, fid), fun fid => deps.contains fid⟩
+    match (if ops == "-" then some [] else (ops.splitOn ";").mapM pPOp) with
+    | some ops =>
+      String.intercalate ";" ((CacheI3.prun W B (pB bump) (CacheI3.closeAbs (pBF atol)) (fun d => (stab.lookup d).getD [])
+        (pList pN gp) (CacheI3.fresh (pN d0) (pN s0)) ops).2.map fPRes)
+    | none => "bad-ops"
+  | ["i3", bump, atol, leaves, srcof, gp, d0, s0, ops] =>
+    let lt := i3Leaves leaves
+    let stab := i3SrcOf srcof
+    let W : CacheI3.World Nat Nat BF I3R := ⟨fun d s k => lt.lookup (d, s, k)⟩
+    match (if ops == "-" then some [] else (ops.splitOn ";").mapM pI3Op) with
+    | some ops =>
+      String.intercalate ";" (i3Trace W (pB bump) (CacheI3.closeAbs (pBF atol)) (fun d => (stab.lookup d).getD [])
+        (pList pN gp) (CacheI3.fresh (pN d0) (pN s0)) ops)
+    | none => "bad-ops"
   | ["hist", v, c, man, bkg, up, lo, dx, grid, sel, d0, s0, ops] =>
     let v := pVariant v
     let cfg := pCfg c
